@@ -47,6 +47,7 @@ EXPECTED_MISSES = {
 
 # (id, property, expected rule prefix, edits)
 FIRE: List[Tuple[str, str, str, List[Tuple[str, str, str]]]] = [
+    ("wkt-redirect-skipped-for-subpackages", "C13", "X13", [(IM, "    compiling_google_protobuf = current_package == [\"google\", \"protobuf\"]\n", "    compiling_google_protobuf = package.startswith(\"google.protobuf\")\n")]),
     ("post-init-does-not-mark-fieldless-children", "C18", "Y14", [(I, "                if isinstance(value, Message) and not value._betterproto.meta_by_field_name:\n                    # A field-less message carries nothing but its presence. A\n                    # constructor that stores its arguments without going through\n                    # __setattr__ (pydantic dataclasses) has not marked it yet.\n                    value._serialized_on_wire = True\n\n", "")]),
     ("is-set-merged-branches-default-true", "C14", "V7", [(I, "        if isinstance(value, Message):\n            return value._serialized_on_wire or bool(value)\n        if isinstance(value, (list, dict)):\n            return bool(value)\n", "        if isinstance(value, (Message, list, dict)):\n            return bool(value) or getattr(value, \"_serialized_on_wire\", True)\n")]),
     ("comment-escaped-quote-escaped-again", "C03", "P11", [(MD, "                body = lines[-1][:-1]\n                # a quote that the replacement above already escaped (odd number of\n                # backslashes in front of it) must not get a second backslash\n                if (len(body) - len(body.rstrip(\"\\\\\"))) % 2 == 0:\n                    lines[-1] = body + '\\\\\"'\n", "                lines[-1] = lines[-1][:-1] + '\\\\\"'\n")]),
@@ -179,6 +180,11 @@ CODEC = ["C01", "C02", "C06", "C08", "C09", "C10", "C16", "C17", "C20"]
 
 # (id, properties that must stay at exit 0, edits)  -- behaviour-preserving refactors
 SILENT: List[Tuple[str, List[str], List[Any]]] = [
+    ("wkt-redirect-test-on-package-text", ["C13", "C03"], [(IM, "    compiling_google_protobuf = current_package == [\"google\", \"protobuf\"]\n", "    compiling_google_protobuf = package == \"google.protobuf\"\n")]),
+    # the two halves of seeded C03-14, each harmless on its own: the value helper of a map field still records the import /
+    # the map field's own annotation still names the type
+    ("datetime-imports-from-py-type-only", ["C03", "C18"], [(MD, "        imports = set()\n        annotation = self.annotation\n        # FIXME: false positives - e.g. `MyDatetimedelta`\n        if \"timedelta\" in annotation:\n            imports.add(\"timedelta\")\n        if \"datetime\" in annotation:\n            imports.add(\"datetime\")\n        return imports\n", "        return {self.py_type} & {\"timedelta\", \"datetime\"}\n")]),
+    ("map-helpers-record-nothing", ["C03", "C18"], [(MD, "        # Add field to message\n        self.parent.fields.append(self)\n        # Check for new imports\n        self.add_imports_to(self.output_file)\n", "        if not isinstance(self.parent, FieldCompiler):\n            # Add field to message\n            self.parent.fields.append(self)\n            # Check for new imports\n            self.add_imports_to(self.output_file)\n")]),
     ("load-varint-first-as-optional-int", ["C17", "C16", "C08", "C01", "C02", "C10"], [(I, "def load_varint(stream: \"SupportsRead[bytes]\", first: bytes = b\"\") -> Tuple[int, bytes]:", "def load_varint(stream: \"SupportsRead[bytes]\", first: Optional[int] = None) -> Tuple[int, bytes]:"), (I, "    raw = b\"\"\n    for shift in count(0, 7):", "    raw = bytearray()\n    for shift in count(0, 7):"), (I, "        b = first or stream.read(1)\n        first = b\"\"\n        if not b:\n            raise EOFError(\"Stream ended unexpectedly while attempting to load varint.\")\n        raw += b\n        b_int = int.from_bytes(b, byteorder=\"little\")\n", "        if first is not None:\n            b_int, first = first, None\n        else:\n            b = stream.read(1)\n            if not b:\n                raise EOFError(\"Stream ended unexpectedly while attempting to load varint.\")\n            b_int = b[0]\n        raw.append(b_int)\n"), (I, "            return result, raw\n", "            return result, bytes(raw)\n"), (I, "        num_wire, raw = load_varint(stream, first)\n", "        num_wire, raw = load_varint(stream, first[0])\n")]),
     ("lowercase-first-by-slices", ["C19", "C05"], [("src/betterproto/casing.py", "    return value[0:1].lower() + value[1:]", "    head, tail = value[:1], value[1:]\n    return head.lower() + tail")]),
     ("from-datetime-converts-to-utc-first", ["C15", "C02", "C01"], [(I, "        offset = dt - DATETIME_ZERO\n", "        offset = dt.astimezone(timezone.utc) - DATETIME_ZERO\n")]),
